@@ -83,7 +83,11 @@ func NondetSelect()                            { panic("intrinsic") }
 func OnSelect(f func())                        { panic("intrinsic") }
 func FilesRemoved() int                        { panic("intrinsic") }
 func FileRemoved(i int) string                 { panic("intrinsic") }
+func Accepts(cond bool, label string)          { panic("intrinsic") }
 func TablesDropped() int                       { panic("intrinsic") }
+func SqlOpens() int                            { panic("intrinsic") }
+func SqlOpenDriver(i int) string               { panic("intrinsic") }
+func SqlOpenDSN(i int) string                  { panic("intrinsic") }
 func DBClosed() int                            { panic("intrinsic") }
 func FieldTag(sample any, field, key string) string { panic("intrinsic") }
 func DurationMs(name string, lo, hi int) time.Duration { panic("intrinsic") }
